@@ -104,6 +104,72 @@ def relocate(text):
     return text, ren
 
 
+def rename_fields(d):
+    """Fields are identified by their names as of the reference tree. A struct whose field was renamed (same number of fields; the new name is unknown to
+    the reference, exactly one reference name is gone, and the field's type is unchanged) gets the reference name back in every place projection and
+    aggregate of the fact base: what a private field is called is not behaviour. -> {adt: {current name: reference name}}"""
+    if not os.path.exists(REFERENCE):
+        return {}
+    ref = json.load(open(REFERENCE)).get("fields", {})
+    ren = {}
+    for a in d["adts"]:
+        rf = ref.get(a["path"])
+        if not rf or len(a["variants"]) != 1:
+            continue
+        cur = [(fl["name"], fl["ty"].get("s", "")) for fl in a["variants"][0]["fields"]]
+        if len(cur) != len(rf):
+            continue
+        rnames = [x[0] for x in rf]
+        cnames = [x[0] for x in cur]
+        new = [x for x in cur if x[0] not in rnames]
+        gone = [x for x in rf if x[0] not in cnames]
+        if not new or len(new) != len(gone):
+            continue
+        m = {}
+        for (n, t) in new:
+            c = [g for g in gone if g[1] == t and g[0] not in m.values()]
+            if len(c) == 1 or (len(gone) == 1 and len(new) == 1):
+                m[n] = (c[0][0] if c else gone[0][0])
+        if len(m) == len(new):
+            ren[a["path"]] = m
+    if not ren:
+        return {}
+    for a in d["adts"]:
+        m = ren.get(a["path"])
+        if m:
+            for fl in a["variants"][0]["fields"]:
+                fl["name"] = m.get(fl["name"], fl["name"])
+
+    def adt_of(of):
+        return of.split("<", 1)[0] if isinstance(of, str) else None
+
+    def fix_place(pl):
+        if not isinstance(pl, dict):
+            return
+        for e in pl.get("proj", []) or []:
+            if isinstance(e, dict) and "field" in e:
+                m = ren.get(adt_of(e.get("of", "")))
+                if m and e["field"] in m:
+                    e["field"] = m[e["field"]]
+
+    def walk(x):
+        if isinstance(x, dict):
+            if "proj" in x and "local" in x:
+                fix_place(x)
+            if x.get("k") == "agg" and x.get("adt") in ren and isinstance(x.get("fields"), list):
+                x["fields"] = [ren[x["adt"]].get(n, n) for n in x["fields"]]
+            for v in x.values():
+                walk(v)
+        elif isinstance(x, list):
+            for v in x:
+                walk(v)
+    for f in d["fns"]:
+        walk(f.get("blocks"))
+        for dbg in f.get("debug", []) or []:
+            walk(dbg)
+    return ren
+
+
 class Facts:
     def __init__(self, path, config="default"):
         self.config = config
@@ -111,6 +177,7 @@ class Facts:
             text = f.read()
         text, self.relocated = relocate(text)
         self.d = json.loads(text)
+        self.renamed_fields = rename_fields(self.d)
         self.crate = self.d["crate"]
         self.fns = {}
         for f in self.d["fns"]:
@@ -259,6 +326,15 @@ if __name__ == "__main__" and "--write-reference" in sys.argv:
             items |= _items(json.load(open(build_facts(cfg, tmp))))
         finally:
             shutil.rmtree(tmp, ignore_errors=True)
-    json.dump({"note": "def paths of module-placed items on the reference tree (identities used by rule anchors and finding keys)",
-               "items": sorted(items)}, open(REFERENCE, "w"), indent=0)
-    print("reference items:", len(items))
+    fields = {}
+    tmp = tempfile.mkdtemp(prefix="avref-")
+    try:
+        dd = json.load(open(build_facts("default", tmp)))
+        for a in dd["adts"]:
+            if len(a["variants"]) == 1:
+                fields[a["path"]] = [[fl["name"], fl["ty"].get("s", "")] for fl in a["variants"][0]["fields"]]
+    finally:
+        shutil.rmtree(tmp, ignore_errors=True)
+    json.dump({"note": "def paths of module-placed items on the reference tree (identities used by rule anchors and finding keys); field names of the structs",
+               "items": sorted(items), "fields": fields}, open(REFERENCE, "w"), indent=0)
+    print("reference items:", len(items), "structs with fields:", len(fields))
